@@ -108,7 +108,25 @@ func checkC09(c *Ctx) {
 						}
 					})
 				}
-				r.Ob("PUSH-UNDO", "searchPath.Push failure return", t.Pos(ret.Pos()), !preceded || restored, "a failed Push must leave path as it found it (append undone by the deferred truncation)")
+				// … or by an explicit truncation that lies between the append and this return on every path
+				if preceded && !restored {
+					for _, s := range storesPath {
+						st := s.(*ssa.Store)
+						if _, isSl := st.Val.(*ssa.Slice); !isSl || !precedes(st, ret) {
+							continue
+						}
+						afterAppend := false
+						for _, a := range storesPath {
+							if _, isCall := a.(*ssa.Store).Val.(*ssa.Call); isCall && precedes(a, st) {
+								afterAppend = true
+							}
+						}
+						if afterAppend {
+							restored = true
+						}
+					}
+				}
+				r.Ob("PUSH-UNDO", "searchPath.Push failure return", t.Pos(ret.Pos()), !preceded || restored, "a failed Push must leave path as it found it (append undone by a deferred or explicit truncation)")
 				for _, mu := range mapUpd {
 					r.Ob("PUSH-UNDO", "searchPath.Push failure return leaves nodeMap alone", t.Pos(ret.Pos()), !reachableFrom(mu, ret), "nodeMap must be updated only when Push succeeds")
 				}
